@@ -312,9 +312,22 @@ def _percent(fmt, args):
     return TextV(out)
 
 
-def size_constants(repo: Repo, fn):
-    """integer constants >= 4 in the writer's text, and module constants it names"""
+def size_constants(repo: Repo, fn, depth=2, _seen=None):
+    """integer constants >= 4 in the writer's text (defaults of its parameters included), module constants it names, and the same
+    for the module-level helpers it calls (two levels)"""
     ks = set()
+    _seen = _seen if _seen is not None else set()
+    _seen.add(fn.name)
+    for d in list(fn.args.defaults) + [d for d in fn.args.kw_defaults if d is not None]:
+        v = _fold(d)
+        if isinstance(v, int) and not isinstance(v, bool) and v >= 4:
+            ks.add(v)
+    if depth > 0:
+        helpers = repo.functions(EDGELIST)
+        for n in walk_no_nested(fn):
+            if isinstance(n, ast.Call) and isinstance(n.func, ast.Name) and n.func.id in helpers and n.func.id not in _seen \
+                    and n.func.id not in ("generate_snapshots", "generate_interactions"):
+                ks |= set(size_constants(repo, helpers[n.func.id], depth - 1, _seen))
     for n in walk_no_nested(fn):
         if isinstance(n, ast.Constant) and isinstance(n.value, int) and not isinstance(n.value, bool) and n.value >= 4:
             ks.add(n.value)
